@@ -548,10 +548,13 @@ func VerifDecodedIsEncoded(d []byte, o Options, r Options, defs map[OptionID]Opt
 	VerifParseOfEncoding(d, o, defs)
 }
 
-// Assumed contracts (CRC-64 of the token bytes - modelled as a function of the slice, whose bytes are not
-// modified between the calls that are compared; deep copy of an option list):
+// Assumed contracts (CRC-64 of the token bytes - for tokens of at most 8 bytes an uninterpreted function of
+// the length and the bytes, so two copies of one token hash alike; for longer tokens a function of the
+// slice; deep copy of an option list):
 //
-//@ spec tokenHashOf(t Token) int
+//@ spec hashOfBytes(n int, b0 int, b1 int, b2 int, b3 int, b4 int, b5 int, b6 int, b7 int) int
+//@ spec longTokenHashOf(t Token) int
+//@ spec tokenHashOf(t Token) int = ite(len(t) <= 8, hashOfBytes(len(t), ite(len(t) > 0, t[0], 0), ite(len(t) > 1, t[1], 0), ite(len(t) > 2, t[2], 0), ite(len(t) > 3, t[3], 0), ite(len(t) > 4, t[4], 0), ite(len(t) > 5, t[5], 0), ite(len(t) > 6, t[6], 0), ite(len(t) > 7, t[7], 0)), longTokenHashOf(t))
 //
 //@ func (Token) Hash() (h uint64)
 //@   trusted
